@@ -24,7 +24,7 @@ META: Dict[str, Any] = {
     "level": "fault_enumeration",
     "pools": [{"backend": "c"}, {"backend": "py"}],
     "tiers": {
-        "quick": {"runs": 40000, "chunk": 250, "wall": 60, "chunk_wall": 240},
+        "quick": {"runs": 120000, "chunk": 400, "wall": 60, "chunk_wall": 240},
         "thorough": {"runs": 3000000, "chunk": 500, "wall": 900, "chunk_wall": 600},
     },
     "selftest_runs": 6,
@@ -291,6 +291,8 @@ def gen(rs: int, index: int, tier: str) -> Dict[str, Any]:
                     faults_applied.append(info)
         monitored, tx_ids = base["monitored"], base["tx_ids"]
     else:
+        if S.rng("mode").random() < 0.12:
+            return c12.gen_closed(S, with_faults=True)
         sub = r.random()
         if sub < 0.7:
             mode = "multi"
@@ -542,7 +544,65 @@ def run_bus_segments(trace: Dict[str, Any], ent: Dict[str, Any], frames: List[Tu
     return total
 
 
+def execute_closed(trace: Dict[str, Any]) -> Dict[str, Any]:
+    """Closed-loop run with bus faults: real can-isotp stacks react to loss/duplication with
+    timeouts and aborts; the odxtools node is judged on what was actually delivered."""
+    from ..can import closedloop as CL
+    log = EventLog()
+    clock = W.SimClock()
+    cfg = trace["cfg"]
+    res = CL.run_closed_loop(cfg, trace["telegrams"], trace["sched_seed"], trace.get("faults", []), clock,
+                             max_steps=120000)
+    log.ev("sim", "closed-config", cfg)
+    log.ev("bus", "delivered", [(f, d, s) for f, d, s in res.delivered], clock.now)
+    log.ev("nut", "reports", [(k, i, p) for k, i, p in res.reports])
+    if not res.completed and res.raised is None:
+        raise RuntimeError("closed-loop simulation did not finish within its step cap")
+    monitored = list(trace["monitored"])
+    frames = [(f, d) for f, d, s in res.delivered]
+    er = W.EntryResult("closed-" + cfg["kind"])
+    er.reports = list(res.reports)
+    er.raised = res.raised
+    violations = judge(frames, [], er, monitored, {}, "closed")
+    # (d) recovery: the telegram sent after the last fault arrives exactly once, as the last report
+    if res.raised is None:
+        for direction, mid in (("req", cfg["rx_id"]), ("rsp", cfg["tx_id"])):
+            fin = [bytes.fromhex(t[1]) for t in trace["telegrams"] if t[0] == direction and len(t) > 2 and t[2] == "final"]
+            if not fin or mid not in monitored:
+                continue
+            got = [p for _, rid, p in res.reports if rid == mid]
+            n = sum(1 for p in got if p == fin[0])
+            if n != 1 or got[-1] != fin[0]:
+                violations.append({"oracle": "C13.d-recovery", "sig": {"what": "missing" if n == 0 else "extra", "entry": "closed"},
+                                   "detail": {"id": mid, "expected": fin[0].hex()[:60], "times_reported": n,
+                                              "stack_errors": res.stack_errors[:4]}})
+    seen = set()
+    uniq = []
+    for v in violations:
+        key = (v["oracle"], tuple(sorted(v["sig"].items())))
+        if key not in seen:
+            seen.add(key)
+            uniq.append(v)
+            log.ev("oracle", "violation", {"oracle": v["oracle"], "sig": v["sig"]})
+    faults = {("bus_" + k): n for k, n in res.faults_fired.items()}
+    errs = {e[1] for e in res.stack_errors}
+    probes = {"closed_loop_run": 1}
+    for e in sorted(errs):
+        probes["real_stack_" + e] = 1
+    return {
+        "digest": log.digest(), "events": log.events, "counters": {"frames_fed": len(frames), "reports": len(res.reports),
+                                                                    "mode_closed": 1},
+        "faults": faults, "probes": probes, "states": {h64("closed", tuple(sorted(errs)), cfg["mode"])},
+        "sched_sig": h64("closed", tuple(s for _, _, s in res.delivered)), "sim_time": clock.now,
+        "violations": uniq, "nontrivial": bool(res.faults_fired) and bool(errs - {"UnexpectedFlowControlError"}),
+        "sample": {"closed_loop": cfg, "faults": trace.get("faults"), "stack_errors": res.stack_errors[:6],
+                   "delivered": [[f, d.hex()[:24], s] for f, d, s in res.delivered[:24]]},
+    }
+
+
 def execute(trace: Dict[str, Any]) -> Dict[str, Any]:
+    if trace.get("kind") == "closed":
+        return execute_closed(trace)
     log = EventLog()
     clock = W.SimClock()
     monitored = list(trace["monitored"])
@@ -651,6 +711,8 @@ def execute(trace: Dict[str, Any]) -> Dict[str, Any]:
 
 # ------------------------------------------------------------------ minimisation
 def trace_size(trace: Dict[str, Any]) -> int:
+    if trace.get("kind") == "closed":
+        return sum(len(t[1]) // 2 for t in trace["telegrams"]) + len(trace.get("faults", []))
     return len(trace["frames"])
 
 
@@ -674,6 +736,14 @@ def simpler_frame(f: List[Any]) -> List[List[Any]]:
 
 
 def shrink(trace: Dict[str, Any], still_fails) -> Dict[str, Any]:
+    if trace.get("kind") == "closed":
+        b = ShrinkBudget(150)
+        fl = ddmin_list(trace.get("faults", []), lambda f: still_fails({**trace, "faults": f}), b)
+        cur = {**trace, "faults": fl}
+        keep = [t for t in cur["telegrams"] if len(t) > 2]
+        rest = [t for t in cur["telegrams"] if len(t) <= 2]
+        rest = ddmin_list(rest, lambda t: still_fails({**cur, "telegrams": t + keep}), b)
+        return {**cur, "telegrams": rest + keep}  # payloads are not shortened: the recovery telegram must stay unique
     budget = ShrinkBudget(2500)
     cur = trace
     if len(cur["entries"]) > 1:
